@@ -72,7 +72,7 @@ func runCmd(dir string, env []string, name string, args ...string) (string, erro
 // buildWorker builds cmd/worker against /repo (mode A).
 func buildWorker(extraArgs ...string) string {
 	out := filepath.Join(scratch, "worker")
-	args := []string{"build", "-tags", "verif"}
+	args := []string{"build", "-tags", "verif", "-overlay", writeOverlay()}
 	args = append(args, extraArgs...)
 	args = append(args, "-o", out, "./cmd/worker")
 	if o, err := runCmd(verifDir, goEnv(), "go", args...); err != nil {
@@ -257,7 +257,7 @@ func main() {
 	if v := os.Getenv("VERIF_REPO"); v != "" {
 		repoDir = v
 	}
-	if len(os.Args) < 3 {
+	if len(os.Args) < 3 && !(len(os.Args) == 2 && os.Args[1] == "warm") {
 		fmt.Fprintln(os.Stderr, "usage: vcheck run <Cxx> [--tier quick|thorough] | vcheck replay <file>")
 		os.Exit(2)
 	}
@@ -287,6 +287,9 @@ func main() {
 			} else {
 				code = runWorkerCheck(prop, tier)
 			}
+		case "warm":
+			buildWorker()
+			code = 0
 		case "replay":
 			code = replay(os.Args[2])
 		default:
@@ -325,3 +328,5 @@ func replay(path string) int {
 }
 
 var specialReplay = map[string]func(path string) int{}
+
+func readFile(p string) ([]byte, error) { return os.ReadFile(p) }
